@@ -1,5 +1,12 @@
 -- Root of the `RotondaModel` library: models, helper proofs, property theorems.
 import RotondaModel.Model.Frim
 import RotondaModel.Props.C18
+import RotondaModel.Model.Codec
+import RotondaModel.Model.Gate
 import RotondaModel.Model.BmpIo
 import RotondaModel.Props.C06
+import RotondaModel.Model.MrtApi
+import RotondaModel.Props.C20
+import RotondaModel.Model.Ingress
+import RotondaModel.Props.C14
+import RotondaModel.Props.C04
